@@ -172,11 +172,57 @@ def run_case(case, tracer, tracer_mods):
     return out
 
 
+WARM = [
+    dict(kind="sphere", c=[0.0, 0.0, 0.0], r=1.0),
+    dict(kind="box", R=[[1.0, 0, 0], [0, 1.0, 0], [0, 0, 1.0]], t=[0.0, 0, 0], size=[1.0, 1.0, 1.0]),
+    dict(kind="cylinder", R=[[1.0, 0, 0], [0, 1.0, 0], [0, 0, 1.0]], t=[0.0, 0, 0], r=1.0, l=1.0),
+    dict(kind="capsule", R=[[1.0, 0, 0], [0, 1.0, 0], [0, 0, 1.0]], t=[0.0, 0, 0], r=1.0, h=1.0),
+    dict(kind="ellipsoid", R=[[1.0, 0, 0], [0, 1.0, 0], [0, 0, 1.0]], t=[0.0, 0, 0], radii=[1.0, 2.0, 3.0]),
+    dict(kind="cone", R=[[1.0, 0, 0], [0, 1.0, 0], [0, 0, 1.0]], t=[0.0, 0, 0], r=1.0, h=1.0),
+    dict(kind="disk", c=[0.0, 0, 0], r=1.0, n=[0.0, 0, 1.0]),
+    dict(kind="ellipse", c=[0.0, 0, 0], a0=[1.0, 0, 0], a1=[0.0, 1.0, 0], r0=1.0, r1=2.0),
+    dict(kind="hull", vs=[[0.0, 0, 0], [1.0, 0, 0], [0, 1.0, 0], [0, 0, 1.0]]),
+    dict(kind="mesh", R=[[1.0, 0, 0], [0, 1.0, 0], [0, 0, 1.0]], t=[0.0, 0, 0],
+         vs=[[0.0, 0, 0], [1.0, 0, 0], [0, 1.0, 0], [0, 0, 1.0]], triangles=[[0, 2, 1], [0, 1, 3], [0, 3, 2], [1, 2, 3]]),
+]
+
+
+def warm_up():
+    """compile / load every numba function used below BEFORE the per-case CPU budget applies"""
+    for sh in WARM:
+        c, _ = build(sh)
+        c.support_function(arr([0.3, -0.2, 1.0]))
+        if sh["kind"] == "box":
+            geometry.support_function_box(arr([0.3, -0.2, 1.0]), pose4(sh["R"], sh["t"]), arr([0.5, 0.5, 0.5]))
+
+
+def arm(budget):
+    """CPU-time watchdog (load independent): the kernel terminates this process (SIGVTALRM, default
+    action) once it has consumed `budget` more seconds of user CPU time - also inside a compiled loop
+    that never returns to the interpreter"""
+    import signal
+    if budget:
+        signal.signal(signal.SIGVTALRM, signal.SIG_DFL)
+        signal.setitimer(signal.ITIMER_VIRTUAL, float(budget))
+
+
+def disarm():
+    import signal
+    signal.setitimer(signal.ITIMER_VIRTUAL, 0.0)
+
+
 def main():
     payload = json.load(open(sys.argv[1]))
     tracer = st.LineTracer(TRACE_FILES)
     mods = [geometry, utils, mesh, colliders]
-    res = [run_case(c, tracer, mods) for c in payload["cases"]]
+    warm_up()
+    res = []
+    for c in payload["cases"]:
+        arm(payload.get("cpu_budget"))
+        try:
+            res.append(run_case(c, tracer, mods))
+        finally:
+            disarm()
     consts = dict(BOX_COORDS=np.asarray(geometry.BOX_COORDS, dtype=float).tolist(),
                   PROJECTION_LENGTH_EPSILON=float(mesh.PROJECTION_LENGTH_EPSILON),
                   EPSILON=float(utils.EPSILON))
